@@ -27,7 +27,7 @@ RULE = (
     '(filter/slice/split/extend) executed while the source was in displacement representation; distinct = the '
     'operation sequence (names + arguments).'
 )
-RULE += ' Added in rounds 8-10: filter arguments with repeated names; restart chunks repeating the last frame; derived quantities re-queried after extend(); shape analysis (with supercell) and the pair RDF among the read-only queries. Round 13: extend() with a run sampled at another time step (x2, x0.5, x1.001, x10) must be refused and leave the object unchanged.'
+RULE += ' Added in rounds 8-10: filter arguments with repeated names; restart chunks repeating the last frame; derived quantities re-queried after extend(); shape analysis (with supercell) and the pair RDF among the read-only queries. Round 16: sampling intervals of 1.5 / 3 / 0.75 fs and an atomic-unit step. Round 13: extend() with a run sampled at another time step (x2, x0.5, x1.001, x10) must be refused and leave the object unchanged.'
 ASSUMPTIONS = [
     'constant-cell trajectories only',
     'split without equal_parts is taken to tile the source without gaps; at most one trailing frame may stay unused (the implementation drops the last frame)',
@@ -134,7 +134,8 @@ def run_unit(unit, rng, ctx):
         U = np.cumsum(np.concatenate([rng.integers(0, 16, size=(1, N, 3)) / 16, rng.choice(stepset, p=pst / pst.sum(), size=(T - 1, N, 3))]), axis=0)
         ctx.count('dyadic_histories_with_exact_half_cell_steps')
         ctx.count('exact_half_cell_steps', int(np.sum(np.abs(np.diff(U, axis=0)) == 0.5)))
-    dt = 1e-15
+    # sampling intervals incl. values whose conversion to picoseconds and back is not exact (1.5 fs, 3 fs, 0.75 fs)
+    dt = float([1e-15, 1e-15, 2e-15, 1.5e-15, 3e-15, 0.75e-15, 2.4188843265857e-17 * 20][int(rng.integers(7))])
     meta = {'temperature': 300.0 + unit['i'], 'note': 'x'}
     sp = gen.species_objects(names, rng=rng)
     X = U if (rng.integers(2) and not dyadic) else U - np.floor(U)
